@@ -1,7 +1,11 @@
 mod elems;
+mod entry_ops;
 mod exec;
 mod gen;
+mod gen_ext;
 mod pure;
+mod set_runner;
+mod table_runner;
 mod tape;
 
 use exec::{make_runner, Runner};
